@@ -19,7 +19,7 @@ import gen_regexes  # noqa: E402
 
 warnings.simplefilter('ignore')
 PID = 'C07'
-SOURCES = ['SoupVerif/Properties/C07.lean', 'SoupVerif/Spec/RegexCost.lean', 'SoupVerif/Lemmas/RegexCost.lean',
+SOURCES = ['SoupVerif/Properties/C07Parse.lean', 'SoupVerif/Spec/ParseCost.lean', 'SoupVerif/Properties/C07.lean', 'SoupVerif/Spec/RegexCost.lean', 'SoupVerif/Lemmas/RegexCost.lean',
            'SoupVerif/Lemmas/RegexCost/Ends.lean', 'SoupVerif/Lemmas/RegexCost/First.lean', 'SoupVerif/Lemmas/RegexCost/Excl.lean',
            'SoupVerif/Lemmas/RegexCost/Det.lean', 'SoupVerif/Lemmas/RegexCost/Bounds.lean', 'SoupVerif/Generated/Regexes.lean',
            'SoupVerif/Model/Regex.lean']
@@ -95,19 +95,28 @@ def ambiguity_search(pats, budget, deadline):
         a1 = alphabet(p)
         a2 = ([c for c in a1 if not c.isalnum()] + ['a'])[:16]
         units = a1 + [x + y for x in a2 for y in a2 if x != y]
-        reqs = [(pre, u, n) for pre in PREFIXES for u in units for n in (4, 8, 12)]
-        resp = driver.run([f'(15 {enc.s(origin)} {enc.s(pre + u * n)} 0)' for pre, u, n in reqs])
-        tried += len(reqs)
         paths = {}
-        for (pre, u, n), r in zip(reqs, resp):
-            r_ = enc.parse_sx(r)
-            paths[(pre, u, n)] = r_[1] if isinstance(r_, list) and len(r_) == 3 else 0
         cands = []
         for pre in PREFIXES:
+            if time.time() > deadline or cands:
+                break
+            reqs = [(pre, u, n) for u in units for n in (3, 6, 9)]
+            try:
+                resp = driver.run([f'(15 {enc.s(origin)} {enc.s(pre + u * n)} 0)' for pre_, u, n in reqs], timeout=120)
+            except Exception:       # a batch the model itself cannot finish in time: move on
+                continue
+            tried += len(reqs)
+            for (pre_, u, n), r in zip(reqs, resp):
+                r_ = enc.parse_sx(r)
+                # (successful backtracking paths, sub-match attempts of the exhaustive search)
+                paths[(pre, u, n)] = (r_[1], r_[2]) if isinstance(r_, list) and len(r_) == 3 else (0, 0)
             for u in units:
-                p4, p8, p12 = paths[(pre, u, 4)], paths[(pre, u, 8)], paths[(pre, u, 12)]
-                if p4 > 0 and p8 >= 8 * p4 and p12 * p4 >= 0.9 * p8 * p8:
-                    cands.append((p12, pre, u))
+                for k in (0, 1):
+                    p3, p6, p9 = paths[(pre, u, 3)][k], paths[(pre, u, 6)][k], paths[(pre, u, 9)][k]
+                    # geometric growth: the ratio over three more repetitions does not shrink and is large
+                    if p3 > 0 and p9 >= 5 * p6 and p9 * p3 >= 0.9 * p6 * p6:
+                        cands.append((p9 ** (1.0 / max(len(u), 1)), pre, u))
+                        break
         cands.sort(reverse=True)
         for _, pre, u in cands[:3]:
             hit = None
@@ -120,7 +129,7 @@ def ambiguity_search(pats, budget, deadline):
                     dt = time.perf_counter() - t0
                     if dt > budget:
                         hit = {'regex': origin, 'subject': subj, 'length': len(subj), 'seconds': round(dt, 2),
-                               'model_paths_n4_n8_n12': [paths[(pre, u, 4)], paths[(pre, u, 8)], paths[(pre, u, 12)]]}
+                               'model_paths_n3_n6_n9': [paths[(pre, u, 3)], paths[(pre, u, 6)], paths[(pre, u, 9)]]}
                         break
                     if dt < 0.02 and n >= 40:
                         break
@@ -141,6 +150,19 @@ def ambiguity_search(pats, budget, deadline):
                         hit['compile_input'] = hit['subject'] if ctx == '%s' else text
                         hit['compile_seconds'] = round(dt, 2)
                         break
+                msel = __import__('re').match(r"compile\('(\[a.*\])'\) pattern$", origin)
+                if msel:
+                    # a template of an attribute selector: the same value on a one-element document through select()
+                    import bs4
+                    doc = bs4.BeautifulSoup('<p></p>', 'html.parser')
+                    doc.p['a'] = hit['subject']
+                    t0 = time.perf_counter()
+                    try:
+                        sv.select(msel.group(1), doc)
+                    except Exception:
+                        pass
+                    hit['select_call'] = f"select({msel.group(1)!r}, <p a={hit['subject']!r}>)"
+                    hit['select_seconds'] = round(time.perf_counter() - t0, 2)
                 found.append(hit)
                 break
     return found, [o for o, _ in unsafe], tried
@@ -268,6 +290,63 @@ def run(chk):
         for fam, ws in work_growth.items():
             if None not in ws and ws[0] > 0 and ws[2] / max(ws[1], 1) > 9:
                 slow.append({'family': 'model-work:' + fam, 'work': ws})
+    # (3c) iterations of the parse loop: the model's count (service 19, `ParseCost.compileSteps`, bounded by
+    #      |pattern| + sum(|definition| + 1) + 1 by theorem `compile_steps_le`) = calls of next(iselector) in the real parser
+    step_bad = []
+    if driver_ok:
+        ATOMS = ['div', 'p', '*', '.a', '#b', '.a\\20 b', '[x]', '[x=y]', "[x='a b' i]", '[x~="q"]', '[ns|x^=a]', ':root', ':empty',
+                 ':first-child', ':nth-child(2n+1)', ':nth-child(odd of p)', ':nth-last-of-type(-n+3)', ':is(', ':not(', ':has(', ':where(',
+                 ':has(> ', ')', ')', ', ', ' > ', ' + ', ' ~ ', ' ', ':lang(en, "de-*")', ':contains("a", b)', ':-soup-contains-own(x)',
+                 ':dir(ltr)', ':--x', ':--y', ':--z', ':checked', ':link', '&', 'ns|p', '|p', '*|*', ':paused', ':host(', '::before', '@x',
+                 ':nth-child(2 of .a, :--y)', '\\', '[', '.', ':', '"', '/* c */', '\t', ':NOT(', ':Is(', '\x00', 'é']
+        DEFS = ['p', 'a.b', ':--y', ':--y :--y', ':--z > :--z', ':is(a, :--z)', 'div:not(:--y, p)', ':--x', 'p,', ':nth-child(2 of :--z)', ' a ', '']
+        count = [0]
+        orig_iter = cp.CSSParser.selector_iter
+
+        def counting_iter(self, pattern):
+            it = orig_iter(self, pattern)
+            while True:
+                count[0] += 1
+                try:
+                    v = next(it)
+                except StopIteration:
+                    return
+                yield v
+        scases = []
+        for _ in range(1500 if quick else 30000):
+            pat = ''.join(rng.choice(ATOMS) for _ in range(rng.randint(0, 9)))
+            cu = {nm: rng.choice(DEFS) for nm in (':--x', ':--y', ':--z') if rng.random() < 0.6}
+            scases.append((pat, cu))
+        for nlev in (2, 4, 8):      # doubling chains: every definition used twice
+            cu = {f':--s{i}': f':--s{i + 1} :--s{i + 1}' for i in range(nlev)}
+            cu[f':--s{nlev}'] = 'p'
+            scases.append((':--s0', cu))
+        resp = driver.run([f'(19 {enc.s(p_)} ({" ".join(f"({enc.s(k)} {enc.s(v)})" for k, v in c_.items())}))' for p_, c_ in scases])
+        cp.CSSParser.selector_iter = counting_iter
+        try:
+            for (p_, c_), r in zip(scases, resp):
+                count[0] = 0
+                try:
+                    table = cp.process_custom(sv.ct.CustomSelectors(c_))
+                except Exception:
+                    table = None
+                if table is not None:
+                    try:
+                        cp.CSSParser(p_, custom=table, flags=0).process_selectors()
+                    except Exception:
+                        pass
+                m_ = enc.parse_sx(r)
+                bound = len(p_) + sum(len(v) + 1 for v in c_.values()) + 1
+                if not isinstance(m_, list) or m_[0] != count[0] or count[0] > bound:
+                    step_bad.append({'pattern': p_, 'custom': c_, 'model_steps': m_[0] if isinstance(m_, list) else m_, 'real_steps': count[0],
+                                     'proved_bound': bound})
+        finally:
+            cp.CSSParser.selector_iter = orig_iter
+        chk.coverage['parse_loop_step_cases'] = len(scases)
+        chk.coverage['parse_loop_step_mismatches'] = len(step_bad)
+        for b in step_bad:
+            if b['real_steps'] > b['proved_bound']:
+                slow.append({'family': 'parse-loop-iterations', **b})
     # (4) when the obligation fails (or in the thorough tier): model-guided search for a concrete slow input
     unsafe_names = []
     if driver_ok and (not proof_ok or not quick) and not slow:
@@ -282,7 +361,11 @@ def run(chk):
         chk.violation(f'slow{i}', {'what': 'super-polynomial or over-budget parsing time', **b}, concrete=True)
     for i, b in enumerate(corr_bad[:3]):
         chk.violation(f'corr{i}', {'correspondence': 'CPython re.match ≡ Lean Rx.runs head (the regex engine model)', **b}, concrete=False)
-    if not proof_ok and not (slow or corr_bad):
+    if not slow:
+        for i, b in enumerate(step_bad[:3]):
+            chk.violation(f'steps{i}', {'correspondence': 'iterations of the real parse loop ≡ ParseCost.compileSteps (the quantity bounded by theorem)', **b},
+                          concrete=False)
+    if not proof_ok and not (slow or corr_bad or step_bad):
         chk.violation('proof', {'what': 'the StarSafe / polynomial-work obligation no longer checks for the regenerated expressions; the '
                                         'pump search found no input with super-polynomial time',
                                 'theorem_or_correspondence': 'SoupVerif.C07.all_safe / tokenize_poly', 'detail': chk.notes.get('proof_broken')}, concrete=False)
